@@ -13,7 +13,7 @@ paths through lists, zero widths):
 import random
 
 from vmon import env  # noqa: F401
-from vmon.simkit import Top, Mon
+from vmon.simkit import Top, Mon, spell_features
 from vmon.sanitize import StepCounter, StepBound, judge_exception
 from vmon.models.csrmux import f3_unsatisfiable
 from vmon.models.memmap import live_all, live_windows, live_resources
@@ -193,7 +193,8 @@ def b_wbdec(case, rng, P):
     aw = rng.choice([0, 0, 1, 2, 4, 8, 12])
     feats = {f for f in ("err", "rty", "stall", "lock", "cti", "bte") if rng.random() < 0.4}
     P.update(aw=aw, dw=dw, gran=gran, features=sorted(feats), subs=[])
-    dec = wishbone.Decoder(addr_width=aw, data_width=dw, granularity=gran, features=feats, alignment=rng.choice([0, 0, 2]))
+    dec = wishbone.Decoder(addr_width=aw, data_width=dw, granularity=gran, features=spell_features(rng, feats),
+                           alignment=rng.choice([0, 0, 2]))
     map_aw = max(1, aw + gbits)
     subs = []
     for i in range(rng.randint(0, 4)):
@@ -225,7 +226,7 @@ def b_arb(case, rng, P):
     aw = rng.choice([0, 1, 4, 16, 30])
     feats = {f for f in ("err", "rty", "stall", "lock", "cti", "bte") if rng.random() < 0.4}
     P.update(aw=aw, dw=dw, gran=gran, features=sorted(feats), intrs=[])
-    arb = wishbone.Arbiter(addr_width=aw, data_width=dw, granularity=gran, features=feats)
+    arb = wishbone.Arbiter(addr_width=aw, data_width=dw, granularity=gran, features=spell_features(rng, feats))
     intrs = []
     for i in range(rng.randint(0, 5)):
         ig = rng.choice([g for g in (8, 16, 32, 64) if g <= dw])
